@@ -226,6 +226,20 @@ func evalOne(str string, preds SPred, stats *SS) []evalIssue {
 			accBy = append(accBy, ver.Name)
 		}
 		if acc != ok {
+			if preds&SErrors != 0 && acc {
+				// C18 names the error value a single-defect vector yields: accepting it (nil error) is not that value
+				if d := ver.Classify(str); d.Class != spec.ClassNone {
+					if stats != nil {
+						stats.NClassed.Add(1)
+						stats.ClassHist[d.Class].Add(1)
+					}
+					exp := d.Class.String()
+					if d.Abv != "" {
+						exp += "{Abv:" + d.Abv + "}"
+					}
+					issues = append(issues, evalIssue{fmt.Sprintf("v%s/ParseVector/error/want-%s/got-nil-error@%s", ver.Name, d.Class, d.Where), exp, "nil error (accepted), Vector()=" + safeVector(obj)})
+				}
+			}
 			if preds&SAccept != 0 {
 				d := ver.Classify(str)
 				if ok {
